@@ -49,7 +49,7 @@ NOTE = open(os.path.join(os.path.dirname(__file__), "notes", "C11.txt")).read() 
 
 def run(ctx):
     diffcheck.run_diff(
-        ctx, ae, ["accumulate", "acc-never", "acc-lru"], n_quick=450, n_thorough=6000, oracle=oracle,
+        ctx, ae, ["accumulate", "acc-never", "acc-lru", "acc-flip"], n_quick=450, n_thorough=6000, oracle=oracle,
         rule_text="a case counts as non-trivial when, in the model's own log, some `accumulated` returned a "
                   "non-empty list AND at least one memo was re-executed after its first execution AND at least one "
                   "memo was validated without execution",
